@@ -5,8 +5,10 @@ package main
 import (
 	"math"
 	"os"
+	"strconv"
 	"strings"
 
+	"github.com/Vedant9500/WTF/internal/constants"
 	"github.com/Vedant9500/WTF/internal/database"
 	"github.com/Vedant9500/WTF/internal/nlp"
 	"github.com/Vedant9500/WTF/internal/recovery"
@@ -21,8 +23,19 @@ import (
 // plus the hypotheses the theorems make about the un-modelled NLP functions (class
 // oracle-negative-factor): idf, intent boost, cascade boost, TF-IDF similarity are never negative / NaN.
 
-const universalDefaultLimit = 10 // SearchUniversal's literal (Gen.SearchParams.defaultLimit; params_match ties the model)
-const legacyDefaultLimit = 5     // constants.DefaultSearchLimit
+// The property says "the default limit", not which.  SearchUniversal's default is an inline literal: the orchestration hands
+// the value the translator read off the source on this run (Gen.SearchParams.defaultLimit) through the environment; 10 is what
+// it was when this was written and is used only when the translator could not read it (then the check is a violation anyway).
+// The legacy entry points use a named constant, read directly.
+var universalDefaultLimit = c01EnvInt("VERIF_UNIVERSAL_DEFAULT_LIMIT", 10)
+var legacyDefaultLimit = int(constants.DefaultSearchLimit)
+
+func c01EnvInt(name string, def int) int {
+	if v, err := strconv.Atoi(os.Getenv(name)); err == nil && v > 0 {
+		return v
+	}
+	return def
+}
 
 // c01Finite: the option domain on which "every score is finite" is claimed (DESIGN.md C01, domain
 // note): boosts finite and of magnitude ≤ 1e6.  Negative and zero boosts are inside the domain: the
